@@ -5,6 +5,7 @@ from checks.c06 import replay
 ASSUME = [
     '(a) lagging node = fresh instance that applied a prefix of the history (by replay, and restored from a snapshot of that prefix); ids queried: every id of the history +-1, 0, 2^63',
     "(a) 'not yet seen' for an id that is dead and not newer than the applied position is accepted (conservative answer); 'no such session' must imply dead-forever and id <= newest applied id",
+    '(a, API tier) a node that is not the leader (two-server configuration whose other member does not exist) gets every prefix of two logs (create/delete/QUIT, index gaps) applied to its FSM and is asked through the real GET messages / POST message / DELETE handlers about every session of the whole log with the correct secret and about ids beyond the applied position: never 404 or 200 for a session not yet seen, never 404 for a live one, never 200 for an ended one',
     '(b) wall clock pinned by the rt engine (time.Now overlaid); services links (Reply==0) are client sessions of the API and expire like them',
     '(c) monitor on the mc exploration, bounds as C06',
 ]
@@ -12,7 +13,9 @@ RULE = ('(a) histories x prefixes x queried ids x {replayed, snapshot-restored};
         '(c) every transition of the mc exploration: recipients are live sessions, ended sessions left nick index and channels, NICK probe')
 
 def prebuild():
+    import apidrive
     mcdrive.build_mc(rt=True)
+    apidrive.build()
 
 def run(tier):
     t0 = time.time()
@@ -20,10 +23,25 @@ def run(tier):
     rtbin = mcdrive.build_mc(rt=True)
     ra = vlib.run_workers(binary, 'TestVerifC17a', vlib.NCPU)
     rb = vlib.run_workers(rtbin, 'TestVerifC17b', vlib.NCPU)
+    # API tier: what the real public handlers of a lagging, non-leader node answer
+    import apidrive
+    rc = vlib.run_workers(apidrive.build(), 'TestVerifC17Api', vlib.NCPU, env={'GOMAXPROCS': '2'})
+    herr = [r['harness_error'] for r in rc if r.get('harness_error')]
+    if herr:
+        print('HARNESS-ERROR: ' + herr[0])
+        raise SystemExit(3)
     viols = []
     for r in ra + rb:
         viols += r.get('violations') or []
+    for r in rc:
+        for v in r.get('violations') or []:
+            v['prop'] = 'C17api'  # not replayable on the state-machine engine
+            viols.append(v)
+    answers = {}
+    for r in rc:
+        for k, c in (r.get('end_states') or {}).items(): answers[k] = answers.get(k, 0) + c
     extra = {
+        'c17api': {'lagging_nodes': sum(r.get('sequences', 0) for r in rc), 'requests': sum(r.get('ops', 0) for r in rc), 'answers': answers},
         'c17a': {'histories': sum(r['histories'] for r in ra), 'prefixes': sum(r['prefixes'] for r in ra), 'queries': sum(r['queries'] for r in ra),
                  'outcomes': {k: sum(r['outcomes'].get(k, 0) for r in ra) for k in set(sum([list(r['outcomes']) for r in ra], []))},
                  'samples': sum([r.get('samples') or [] for r in ra], [])[:4]},
